@@ -63,6 +63,8 @@ def slice(ctx: fw.Ctx) -> fw.Outcome:
                 cases.append((kind, line, None, tricky, "other-kind"))
     lc.run(ctx, out, cases)
     sections(ctx, out)
+    from .. import direct
+    direct.run(ctx, out, 'events', gen.Profile(max_tracks=0, max_events=12, unknown_sections=0.0, meta_fields=0.0, tricky_text=0.6, exotic_pad=0.2, exotic_digits=0.1))  # every way of handing the section's lines over decodes the same
     return out
 
 
@@ -116,6 +118,9 @@ def sections(ctx, out):
 
 
 def replay(ctx, data):
+    if data.get("op") == "direct-section":
+        from .. import direct
+        return direct.replay(data)
     if data["op"] == "line":
         return lc.replay(data)
     if data["op"] == "chart":
